@@ -30,3 +30,5 @@ def run(check):
     check.run_rule('C13.R6c', lambda c: rule_thread_local_access(c, 'C13.R6'))
     from ..rules_wrappers import rule_forged_visible_to_inspect
     check.run_rule('C13.R7', lambda c: rule_forged_visible_to_inspect(c, 'C13.R7'))
+    from ..rules_wrappers import rule_transparent_receiver
+    check.run_rule('C13.R8', lambda c: rule_transparent_receiver(c, 'C13.R8', 'wrappers'))
